@@ -3,6 +3,12 @@
 import json, subprocess
 
 CHECKS = {
+ "C07": ("exploration", "generated restating rules (identity oracle) + exhaustive alpha identities + neighbour model for variables in contexts",
+         "Restating rules `X1=1..Xk=k > 1..k` over every bindable element kind with full-grammar environments must leave generated words structurally unchanged; `[αF] > [αF]` / `[-αF] > [-αF]` for every feature, node and suprasegmental, and `%:[αstress] > [αstress]`, are enumerated over all bases, base+1 diacritic and the 36 suprasegmental states; `A > B / X=1 _ 1` and `A > B / %=1 _ 1` are compared with a neighbour model over all small words.",
+         "Trusted: the structural hook, the neighbour model (10 lines). Only Ok results are judged in the random part. The secondary-stress alpha collapse is a listed known finding.", "DESIGN.md §5 C07"),
+ "C14": ("exploration", "AST-classified segment-only and prosody-only rules with full-grammar environments; untouched-tier equality oracle",
+         "Rules are classified by construction on the generator's AST as segment-only or prosody-only and given environments/exceptions from the full grammar; on every Ok result the tier the rule must not touch (syllable count, stress, tone, boundaries — resp. the flattened bundle sequence) is compared with the input's.",
+         "Trusted: the generator's classification and the structural hook. Boundary insertion is generated with two-sided segment contexts only (one-sided boundary contexts are known C02 hang findings).", "DESIGN.md §5 C14"),
  "C06": ("exploration", "full-grammar rule generation with a planted absent literal; identity oracle on the structural word",
          "Random full-grammar rules (all four rule types and every construct) into which a literal that does not occur in the word is planted as a mandatory element of every input term (insertion: of the context), plus blank/comment lines; whenever the call returns Ok the structural word must be unchanged and asca::run must print what the empty rule list prints.",
          "Trusted: the planter (AST-level, independent of asca's parser) and the structural hook. Only Ok results are judged. Two insertion fall-back shapes are listed known findings.", "DESIGN.md §5 C06"),
